@@ -10,6 +10,10 @@ def G(model, **kw):
 
 
 # parts are "<r1|r2|o1|o2>.<Name>" or "Sdk.Equal"
+def H(n, length=40):
+    return dict(kind="R", gen="history", n=n, len=length)
+
+
 def T(model, **kw):
     d = dict(kind="T", model=model)
     d.update(kw)
@@ -35,8 +39,8 @@ SDK = re.compile(r"^Sdk\.Equal$")
 PROPS = {
     "C01": dict(
         title="single-item operations behave as a key->item map",
-        quick=[G("M_C01a")],
-        thorough=[G("M_C01a"), G("M_C01b")],
+        quick=[G("M_C01a"), H(30)],
+        thorough=[G("M_C01a"), G("M_C01b"), H(600, 60)],
         own=[parts("Outcome", "ErrClass", "Data", "Base", "Desc", "Catalog")],
         design_ref="DESIGN.md 6 C01",
         level_text="Every (state, operation) transition of a bounded key->item model (3 keys, Put/Update/Delete/Get menus) is "
@@ -46,8 +50,8 @@ PROPS = {
 }
 PROPS["C03"] = dict(
     title="secondary indexes always mirror the base table",
-    quick=[G("M_IDX")],
-    thorough=[G("M_IDX", cfg="M_IDX_t")],
+    quick=[G("M_IDX"), H(30)],
+    thorough=[G("M_IDX", cfg="M_IDX_t"), H(600, 60)],
     own=[parts("Index", "IdxCount", "IdxDesc")],
     design_ref="DESIGN.md 6 C03",
     level_text="Every history of put / overwrite / update / delete / clear / create-index / delete-index over a bounded table with two "
@@ -56,8 +60,8 @@ PROPS["C03"] = dict(
 )
 PROPS["C05"] = dict(
     title="conditional writes are decided on the target item only, atomically",
-    quick=[G("M_COND")],
-    thorough=[G("M_COND", cfg="M_COND_t")],
+    quick=[G("M_COND"), H(30)],
+    thorough=[G("M_COND", cfg="M_COND_t"), H(600, 60)],
     own=[parts("Outcome", "ErrClass", "CcfItem", "Base", "Index", "IdxCount", "Data")],
     design_ref="DESIGN.md 6 C05",
     level_text="Conditional Put / Update / Delete for every condition of a 6-entry menu in every state of a bounded table (target present "
@@ -67,8 +71,8 @@ PROPS["C05"] = dict(
 )
 PROPS["C08"] = dict(
     title="a request that fails leaves no trace",
-    quick=[G("M_FAIL")],
-    thorough=[G("M_FAIL", cfg="M_FAIL_t")],
+    quick=[G("M_FAIL"), H(30)],
+    thorough=[G("M_FAIL", cfg="M_FAIL_t"), H(600, 60)],
     own=[parts("Base", "Index", "IdxCount", "IdxDesc", "Desc", "Catalog")],
     when=lambda f: f["oc"] != "ok",      # C08 speaks about calls that fail; a wrongly accepted request belongs to C07/C13/C16
     level="fault_enumeration",
@@ -80,8 +84,8 @@ PROPS["C08"] = dict(
 )
 PROPS["C02"] = dict(
     title="Query and Scan return exactly the matching items, in sort-key order",
-    quick=[G("M_READ"), T("M_DOTQ"), G("M_IDX")],
-    thorough=[G("M_READ", cfg="M_READ_t"), T("M_DOTQ"), G("M_IDX", cfg="M_IDX_t")],
+    quick=[G("M_READ"), T("M_DOTQ"), G("M_IDX"), H(30)],
+    thorough=[G("M_READ", cfg="M_READ_t"), T("M_DOTQ"), G("M_IDX", cfg="M_IDX_t"), H(600, 60)],
     own=[parts("Outcome", "Data", "NoCrash"), parts("Index")],
     when=lambda f: f["op"] in ("Query", "Scan", "Walk") or any(p.endswith(".Index") for p in f["parts"]),   # reads, and reads through indexes in observations
     design_ref="DESIGN.md 6 C02",
@@ -91,8 +95,8 @@ PROPS["C02"] = dict(
 )
 PROPS["C04"] = dict(
     title="paginating with any Limit equals one unpaginated read",
-    quick=[G("M_READ", cfg="M_WALK")],
-    thorough=[G("M_READ", cfg="M_WALK_t")],
+    quick=[G("M_READ", cfg="M_WALK"), H(30)],
+    thorough=[G("M_READ", cfg="M_WALK_t"), H(600, 60)],
     own=[parts("Outcome", "Data", "NoCrash")],
     when=lambda f: f["op"] == "Walk",
     design_ref="DESIGN.md 6 C04",
@@ -115,8 +119,8 @@ PROPS["C18"] = dict(
 )
 PROPS["C15"] = dict(
     title="emulated failures fail every data call, change nothing, are reversible",
-    quick=[G("M_MODE")],
-    thorough=[G("M_MODE", cfg="M_MODE_t")],
+    quick=[G("M_MODE"), H(20)],
+    thorough=[G("M_MODE", cfg="M_MODE_t"), H(300, 60)],
     own=[parts("Outcome", "ErrClass", "Data", "Base", "Desc", "Catalog")],
     level="fault_enumeration",
     design_ref="DESIGN.md 6 C15",
@@ -127,8 +131,8 @@ PROPS["C15"] = dict(
 )
 PROPS["C19"] = dict(
     title="batch operations equal their item-by-item decomposition",
-    quick=[G("M_BATCH"), G("M_BATCH", cfg="M_BGET")],
-    thorough=[G("M_BATCH", cfg="M_BATCH_t"), G("M_BATCH", cfg="M_BGET")],
+    quick=[G("M_BATCH"), G("M_BATCH", cfg="M_BGET"), H(20)],
+    thorough=[G("M_BATCH", cfg="M_BATCH_t"), G("M_BATCH", cfg="M_BGET"), H(300, 60)],
     own=[parts("Outcome", "ErrClass", "Data", "Unprocessed", "Base", "Desc", "NoCrash")],
     design_ref="DESIGN.md 6 C19",
     level_text="Every BatchWriteItem of one or two requests over two tables (puts, deletes, repeated tables, absent keys) and BatchGetItem of "
@@ -138,9 +142,9 @@ PROPS["C19"] = dict(
 )
 PROPS["C17"] = dict(
     title="the SDK v1 and SDK v2 clients are behaviourally equivalent",
-    quick=[G("M_MODE"), G("M_LIFE", cfg="M_LIFE_b"), G("M_IDX"), G("M_BATCH", cfg="M_BGET"), G("M_NATIVE", cfg="M_NATIVE_pre")],
+    quick=[G("M_MODE"), G("M_LIFE", cfg="M_LIFE_b"), G("M_IDX"), G("M_BATCH", cfg="M_BGET"), G("M_NATIVE", cfg="M_NATIVE_pre"), H(30)],
     thorough=[G("M_MODE", cfg="M_MODE_t"), G("M_LIFE", cfg="M_LIFE_t"), G("M_IDX", cfg="M_IDX_t"), G("M_BATCH", cfg="M_BGET"),
-              G("M_C01a"), G("M_COND"), G("M_FAIL"), G("M_READ"), G("M_READ", cfg="M_WALK")],
+              G("M_C01a"), G("M_COND"), G("M_FAIL"), G("M_READ"), G("M_READ", cfg="M_WALK"), H(400, 60)],
     own=[SDK],
     design_ref="DESIGN.md 6 C17",
     level_text="The same operation sequences - every transition of the lifecycle, failure-mode, index and batch models (thorough: of all "
@@ -246,8 +250,8 @@ PROPS["C14"] = dict(
 )
 PROPS["C20"] = dict(
     title="native-interpreter overrides are dispatched exactly and fall back safely",
-    quick=[G("M_NATIVE"), G("M_NATIVE", cfg="M_NATIVE_pre")],
-    thorough=[G("M_NATIVE"), G("M_NATIVE", cfg="M_NATIVE_pre")],
+    quick=[G("M_NATIVE"), G("M_NATIVE", cfg="M_NATIVE_pre"), dict(kind="R", gen="native-history", n=60, len=30)],
+    thorough=[G("M_NATIVE"), G("M_NATIVE", cfg="M_NATIVE_pre"), dict(kind="R", gen="native-history", n=1500, len=40)],
     own=[parts("Outcome", "ErrClass", "Data", "Base", "CrossFire", "NotDispatched", "NoCrash")],
     design_ref="DESIGN.md 6 C20",
     level_text="Every subset of a registration menu (anagram pairs, the same text for another table and another expression kind, an updater) x "
